@@ -128,6 +128,15 @@ def oracle(kind, table, req, vals, before, res, snap_before, snap_after, col="a"
   if len(set(ids)) != len(ids):
     explicit = [x for x in req if x is not None and x >= 0]
     autos = [g for w, g in zip(req, ids) if w is None or w < 0]
+    first_auto = {}
+    for k, (w, g) in enumerate(zip(req, ids)):
+      if (w is None or w < 0) and g not in first_auto:
+        first_auto[g] = k
+    late = all(first_auto.get(w, len(req)) < k for k, w in enumerate(req)
+               if w is not None and w >= 0 and w in first_auto)
+    if len(set(autos)) == len(autos) and set(autos) & set(explicit) and not late:
+      return ("automatic id repeats an explicit id given earlier in the same request",
+              "%s %r on rows %r accepted: announced %r, rows now %r" % (kind, req, before, ids, after))
     if len(set(autos)) == len(autos) and set(autos) & set(explicit):
       return (SIG_CLASH, "%s %r on rows %r accepted: announced %r, rows now %r" % (kind, req, before, ids, after))
     return ("returned ids are not distinct", "%r -> %r" % (req, ids))
